@@ -54,6 +54,8 @@ def cases(tier, seed):
         c["order"] = int(rng.integers(1, 5))
         c["kind"] = ("noise", "noise", "noise", "const", "delta", "ramp")[int(rng.integers(0, 6))]
         c["dtype"] = ("float32", "float64")[int(rng.random() < 0.25)]
+        if rng.random() < 0.2:
+            c["dtype"] = ("int16", "uint8", "bool")[int(rng.integers(0, 3))]   # raw counts / binary volumes
         c["iseed"] = int(rng.integers(0, 2**31))
         c["cost"] = float(np.prod(c["shape"])) / 500 + 1
     return out
@@ -70,6 +72,10 @@ def _image(p, rng):
         x[tuple(int(rng.integers(0, s)) for s in shape)] = 3.0
     else:
         x = np.indices(shape).sum(0).astype(float)
+    if p["dtype"] in ("int16", "uint8"):
+        x = np.clip(np.round(x * 20 + 60), 0, 250)
+    elif p["dtype"] == "bool":
+        x = x > np.median(x)
     return x.astype(p["dtype"])
 
 
@@ -111,6 +117,8 @@ def run(case):
     outs = {}
     for name, fn in real_entries.items():
         y = np.asarray(fn(x))
+        if y.dtype == bool:      # identity regime hands a boolean input back unchanged
+            y = y.astype(np.float64)
         outs[name] = y
         ok_shape = case.check(tuple(y.shape) == shape, f"{name}: output shape != input shape",
                               _mech(shape, y.shape), in_shape=shape, out_shape=y.shape,
@@ -122,7 +130,7 @@ def run(case):
             case.check(err <= TOLERANCES["rel_value"], f"{name}: differs from Butterworth reference",
                        rel_err=err, shape=shape, cutoff=cutoff, order=order)
             if identity:
-                case.check(np.array_equal(y, x) or err <= 1e-6, f"{name}: not identity beyond thresholds",
+                case.check(np.array_equal(y, x.astype(y.dtype)) or err <= 1e-6, f"{name}: not identity beyond thresholds",
                            cutoff=cutoff)
             # mean preserved (DC weight is 1)
             case.check(abs(float(y.mean()) - float(x.mean())) <= 1e-4 * scale_v,
@@ -150,7 +158,8 @@ def run(case):
     x2 = _image({**p, "kind": "noise"}, gen.rng_for(p["iseed"], "img2"))
     a, b = 1.7, -0.6
     f = real_entries["Backend.lowpass_filter"]
-    y12 = np.asarray(f((a * x + b * x2).astype(p["dtype"])))
+    lin_dtype = p["dtype"] if p["dtype"].startswith("float") else "float64"
+    y12 = np.asarray(f((a * x.astype(lin_dtype) + b * x2.astype(lin_dtype)).astype(lin_dtype)))
     y1, y2 = np.asarray(f(x)), np.asarray(f(x2))
     if y12.shape == y1.shape == y2.shape:
         s = max(np.abs(y12).max(), 1e-12)
